@@ -2020,6 +2020,9 @@ func (w *Writer) tryConstEvalBinary(b ir.ExprBinary) (string, bool) {
 	if !w.involvesExprConstant(b.Left) && !w.involvesExprConstant(b.Right) {
 		return "", false
 	}
+	if !ir.BinaryFoldableAsFloat(b.Op) {
+		return "", false
+	}
 	leftVal, leftOk := w.exprConstValue(b.Left)
 	rightVal, rightOk := w.exprConstValue(b.Right)
 	if !leftOk || !rightOk {
@@ -2093,7 +2096,7 @@ func (w *Writer) exprConstValue(handle ir.ExpressionHandle) (float64, bool) {
 	case ir.ExprBinary:
 		left, leftOk := w.exprConstValue(k.Left)
 		right, rightOk := w.exprConstValue(k.Right)
-		if leftOk && rightOk {
+		if leftOk && rightOk && ir.BinaryFoldableAsFloat(k.Op) {
 			return ir.EvalBinaryFloat(k.Op, left, right), true
 		}
 	case ir.ExprUnary:
